@@ -91,7 +91,7 @@ func TestVerifC19DevBoot(t *testing.T) {
 	if h == nil {
 		t.Skip("VERIF_OUT not set")
 	}
-	n := h.N(36, 400)
+	n := h.N(36, 200)
 	for idx := 0; idx < n; idx++ {
 		r := h.Begin(idx)
 		if r == nil {
